@@ -142,6 +142,16 @@ func closeStatus(p *Prog, a acquisition) (bool, string) {
 				closers = append(closers, node)
 				return true
 			}
+			// append(list, …, opt(v)): stored in a collection, like an element of a composite literal
+			if id, ok := ast.Unparen(x.Fun).(*ast.Ident); ok && id.Name == "append" {
+				if _, isBuiltin := info.Uses[id].(*types.Builtin); isBuiltin {
+					for _, e := range x.Args[1:] {
+						if usesObj(info, e, a.Var) {
+							transferred = "appended to a slice"
+						}
+					}
+				}
+			}
 			callee := Callee(info, x)
 			if callee == nil {
 				return true
